@@ -478,6 +478,16 @@ class StmtMixin:
             return Iter(z3.Length(seq), lambda k: V(seq[k], kt), src=v)
         raise Unsupported(f"iteration over {v.ty} at line {getattr(node, 'lineno', '?')}")
 
+    def instantiate_seq_facts(self, st, it, k):
+        """manual instantiation, at index k, of the element-wise facts known about the iterated sequence"""
+        src = it.src if isinstance(it, Iter) else it
+        if src is None or base_type(src.ty) not in ("list", "tuple", "set"):
+            return
+        seq = self.elems(st, src)
+        if z3.is_const(seq) and seq.decl().kind() == z3.Z3_OP_UNINTERPRETED:
+            for fn in self.seq_facts.get(seq.decl().name(), []):
+                st.assume(fn(k))
+
     def loop_key(self, s):
         tgt = ast.unparse(s.target) if hasattr(s, "target") else "while"
         return tgt
@@ -661,6 +671,7 @@ class StmtMixin:
         names = self.assigned_names(s.body) | self.assigned_names([s])
 
         def body(state):
+            self.instantiate_seq_facts(state, it, i)
             self.bind_target(state, s.target, self.typed(state, it.item(i)))
             return self.block(state, s.body)
 
